@@ -1,6 +1,9 @@
 package models
 
 import (
+	"encoding/hex"
+	"strings"
+
 	sdkmath "cosmossdk.io/math"
 
 	sdk "github.com/cosmos/cosmos-sdk/types"
@@ -136,6 +139,41 @@ func CoinsString(c sdk.Coins) string { return "<coins>" }
 //verif:model github.com/cosmos/cosmos-sdk/types.ValidateAuthority
 func ValidateAuthority(ctx sdk.Context, keeperAuthority, msgAuthority string) error {
 	if keeperAuthority != msgAuthority {
+		return errApp
+	}
+	return nil
+}
+
+//verif:model (github.com/cosmos/cosmos-sdk/types.Coin).Add
+func CoinAdd(c, b sdk.Coin) sdk.Coin {
+	if c.Denom != b.Denom {
+		panic("invalid coin denoms")
+	}
+	return sdk.Coin{Denom: c.Denom, Amount: c.Amount.Add(b.Amount)}
+}
+
+//verif:model (github.com/cosmos/cosmos-sdk/types.Coin).Sub
+func CoinSub(c, b sdk.Coin) sdk.Coin {
+	if c.Denom != b.Denom {
+		panic("invalid coin denoms")
+	}
+	res := sdk.Coin{Denom: c.Denom, Amount: c.Amount.Sub(b.Amount)}
+	if res.Amount.IsNegative() {
+		panic("negative coin amount")
+	}
+	return res
+}
+
+// HexBytesString models cometbft's HexBytes.String: upper-case hex.
+//
+//verif:model (github.com/cometbft/cometbft/libs/bytes.HexBytes).String
+func HexBytesString(bz []byte) string { return strings.ToUpper(hex.EncodeToString(bz)) }
+
+// ValidateHash models cometbft's types.ValidateHash: empty or exactly 32 bytes.
+//
+//verif:model github.com/cometbft/cometbft/types.ValidateHash
+func ValidateHash(h []byte) error {
+	if len(h) > 0 && len(h) != 32 {
 		return errApp
 	}
 	return nil
